@@ -1,7 +1,6 @@
 import asyncio
 import sys
 from urllib.parse import urlsplit
-from .. import exceptions
 
 import tornado.web
 import tornado.websocket
@@ -164,7 +163,7 @@ class WebSocket:  # pragma: no cover
             self.tornado_handler.write_message(
                 message, binary=isinstance(message, bytes))
         except tornado.websocket.WebSocketClosedError:
-            raise exceptions.EngineIOError()
+            raise OSError()
 
     async def wait(self):
         msg = await self.tornado_handler.get_next_message()
